@@ -550,11 +550,11 @@ pub fn process_events(
     input: InputList,
     context: &mut TransformerContext,
 ) -> Result<(OutputList, Option<BoundingBox>)> {
-    if is_real_svg(&input) {
-        if context.get_top_element().is_none() {
-            // if this is the outermost SVG element, we mark the entire input as a 'real' SVG document
-            context.real_svg = true;
-        }
+    if context.at_top_level() && is_real_svg(&input) {
+        // The outermost element is a namespaced <svg>: the entire input is a 'real' SVG
+        // document and is passed through as-is. (Nested namespaced <svg> elements are
+        // passed through by `Container`.)
+        context.real_svg = true;
         return Ok((input.into(), None));
     }
     let mut output = OutputList::new();
